@@ -120,7 +120,7 @@ RUN = "molli.pipeline.runner:run_local"
 @P.unit(RUN, name="run_local: files, command loop, capture, returned files, exit status")
 def _run_local(V):
     I, st = V.I, V.st
-    k = V.choose([1, 2, 3], "n-commands")
+    k = V.choose([1, 2, 3] + ([4] if V.tier == "thorough" else []), "n-commands")
     named = [V.choose([True, False], f"named{i}") for i in range(k)]
     cmds, names = [], []
     for i in range(k):
